@@ -29,6 +29,7 @@ type Exec struct {
 	nGuarded    int
 	nonNil      map[string]bool // reference terms known to be non-zero on every path
 	curFrame    *frame
+	noModular   bool                // look into callees even when they carry a contract (trace extraction)
 	loopSpecs   map[int]*LoopSpec   // plug-in supplied loop contracts of the top function
 	over        map[string]stdModel // per-run model overrides (mode A abstractions)
 	opaque      map[string]bool     // callees never inlined: result havocked, no write to existing memory
